@@ -198,8 +198,10 @@ class BaseNetref(with_metaclass(NetrefMetaclass, object)):
     def __str__(self):
         return syncreq(self, consts.HANDLE_STR)
 
-    def __exit__(self, exc, typ, tb):
-        return syncreq(self, consts.HANDLE_CTXEXIT, exc)  # can't pass type nor traceback
+    def __exit__(self, typ, exc, tb):
+        # the exception crosses by value (class, arguments, traceback text), as exceptions in replies do
+        conn = object.__getattribute__(self, "____conn__")
+        return syncreq(self, consts.HANDLE_CTXEXIT, None if typ is None else conn._box_exc(typ, exc, tb))
 
     def __reduce_ex__(self, proto):
         # support for pickling netrefs
